@@ -28,6 +28,7 @@ type Prog struct {
 	litOf    map[*ast.FuncLit]*Func
 	graphs   map[*Func]*Graph
 	parentOf map[ast.Node]ast.Node
+	roleOf   map[*Func]string // functions renamed to their canonical role name -> real name
 	GOOS     string
 	GOARCH   string
 }
@@ -94,7 +95,7 @@ func Load(dir, goos, goarch string) (*Prog, error) {
 	}
 	p := &Prog{Dir: dir, Fset: fset, Pkgs: map[string]*packages.Package{}, All: pkgs,
 		declOf: map[*types.Func]*Func{}, litOf: map[*ast.FuncLit]*Func{}, graphs: map[*Func]*Graph{},
-		parentOf: map[ast.Node]ast.Node{}, GOOS: goos, GOARCH: goarch}
+		parentOf: map[ast.Node]ast.Node{}, roleOf: map[*Func]string{}, GOOS: goos, GOARCH: goarch}
 	var errs []string
 	for _, pk := range pkgs {
 		for _, e := range pk.Errors {
@@ -128,6 +129,7 @@ func Load(dir, goos, goarch string) (*Prog, error) {
 		}
 	}
 	sort.Slice(p.Funcs, func(i, j int) bool { return p.Funcs[i].Body.Pos() < p.Funcs[j].Body.Pos() })
+	p.assignRoles()
 	return p, nil
 }
 
@@ -287,7 +289,29 @@ func (p *Prog) Callee(f *Func, call *ast.CallExpr) types.Object {
 // CalleeName returns "pkgpath.Func" or "pkgpath.Type.Method" (pointer receivers are
 // written without the star) for a resolved callee, "" if unresolved.
 func (p *Prog) CalleeName(f *Func, call *ast.CallExpr) string {
-	return objFullName(p.Callee(f, call))
+	o := p.Callee(f, call)
+	if fo, ok := o.(*types.Func); ok && len(p.roleOf) > 0 {
+		if tf := p.FnOf(fo); tf != nil {
+			if _, renamed := p.roleOf[tf]; renamed {
+				return fullFromDisplay(tf.Name)
+			}
+		}
+	}
+	return objFullName(o)
+}
+
+// fullFromDisplay turns a display name ("Client.Start", "grpcmux.X.Y") into
+// the full name form used for callees.
+func fullFromDisplay(name string) string {
+	for _, sub := range []string{"grpcmux.", "cmdrunner."} {
+		if strings.HasPrefix(name, sub) {
+			return modPath + "/internal/" + name
+		}
+	}
+	if strings.HasPrefix(name, "runner.") {
+		return modPath + "/" + name
+	}
+	return modPath + "." + name
 }
 
 func objFullName(o types.Object) string {
@@ -423,4 +447,16 @@ func exprStr(e ast.Node) string {
 		return types.ExprString(x)
 	}
 	return fmt.Sprintf("%T", e)
+}
+
+// rootName is the name of the declared function a body belongs to (closure
+// indices are not stable under edits, so exception tables use the root).
+func rootName(f *Func) string {
+	for f.Parent != nil {
+		f = f.Parent
+	}
+	if i := strings.Index(f.Name, "$"); i >= 0 {
+		return f.Name[:i]
+	}
+	return f.Name
 }
